@@ -14,5 +14,5 @@ def main (args : List String) : IO Unit := do
       | .error e => IO.println s!"{path}: index REJECTED: {repr e}"
       | .ok t =>
         let lv := leaves t
-        let ok := lv.filter fun x => (checkBedBlock l x).isSome
+        let ok := lv.filter fun x => (checkBedLeaf l x).isSome
         IO.println s!"{path}: index accepted, {lv.length} leaves, {ok.length} blocks accepted, {(lv.flatMap (bedItemsOf l)).length} entries decoded"
